@@ -265,6 +265,11 @@ func (m *blueGreenReleaseManager) doCanaryJump(c *RolloutContext) (jumped bool) 
 			if currentStepStateBackup == v1beta1.CanaryStepStateInit || currentStepStateBackup == v1beta1.CanaryStepStateUpgrade {
 				bluegreenStatus.CurrentStepState = v1beta1.CanaryStepStateInit
 			}
+			// a "jump" onto the step we are on compares the step with itself: its replicas may just have been changed
+			// by a plan edit (or never been released), so go through the upgrade gate again
+			if nextIndex == currentIndexBackup {
+				bluegreenStatus.CurrentStepState = v1beta1.CanaryStepStateInit
+			}
 		} else {
 			bluegreenStatus.CurrentStepState = v1beta1.CanaryStepStateInit
 		}
